@@ -32,8 +32,9 @@ HINTS = [
     'Annotated[int, IsEqual[1]]', 'UProto',
 ]
 # hints mentioning LATER are written with a name that is bound only after the definition
-LATER_HINTS = ['LATER', 'Optional[LATER]', 'List[LATER]', 'Dict[str, LATER]', 'Union[int, LATER]', 'Tuple[LATER, ...]',
-               'Type[LATER]', 'Sequence[List[LATER]]']
+LATER_HINTS = ['LATER', 'Optional[LATER]', 'List[LATER]', 'LATERG[int]', 'Dict[str, LATER]', 'Union[int, LATER]', 'Tuple[LATER, ...]',
+               'Type[LATER]', 'Sequence[List[LATER]]', 'Optional[LATERG[int]]', 'List[LATERG[UA]]', 'LATERG[LATER]']
+# LATERG: a *generic* class bound after the definition and subscripted inside the string ('LaterG[int]')
 
 PLACEMENTS = ['module', 'method', 'nested_method', 'closure', 'closure_in_method', 'class_attr', 'class_nested_attr']
 # class_attr / class_nested_attr: @beartype decorates the (outer) class and the annotation names an
@@ -45,7 +46,8 @@ HEADER = '''{future}
 from typing import *
 from beartype import beartype
 from beartype.vale import IsEqual
-from bearverif.userclasses import UA, UB, UC, UProto
+from bearverif.userclasses import UA, UB, UC, UProto, UGenList
+_T = TypeVar('_T')
 CALLS = {{}}
 '''
 
@@ -53,6 +55,8 @@ CALLS = {{}}
 PROBE_ARG = {
     'LATER': 'UA()', 'Optional[LATER]': 'UA()', 'List[LATER]': '[UA()]', 'Dict[str, LATER]': '{"a": UA()}',
     'Union[int, LATER]': 'UA()', 'Tuple[LATER, ...]': '(UA(),)', 'Type[LATER]': 'UA', 'Sequence[List[LATER]]': '[[UA()]]',
+    'LATERG[int]': 'UGenList([1])', 'Optional[LATERG[int]]': 'UGenList([1])', 'List[LATERG[UA]]': '[UGenList([UA()])]',
+    'LATERG[LATER]': 'UGenList([UA()])',
 }
 
 
@@ -68,13 +72,16 @@ def module_source(hint, placement, form):
     future = 'from __future__ import annotations' if form in ('future', 'later_future') else ''
     later = form.startswith('later')
     uses_later = 'LATER' in hint
+    text = hint.replace('LATERG', 'LaterG').replace('LATER', 'Later')
     if form == 'evaluated':
-        ann = hint.replace('LATER', 'Later')
+        ann = text
     elif form in ('string', 'later_string'):
-        ann = repr(hint.replace('LATER', 'Later'))
+        ann = repr(text)
     else:
-        ann = hint.replace('LATER', 'Later')
+        ann = text
     define = 'class Later(_ABC):\n    pass\nLater.register(UA)'
+    if 'LATERG' in hint:
+        define += '\nclass LaterG(_ABC, Generic[_T]):\n    pass\nLaterG.register(UGenList)'
     before = define if (uses_later and not later) else ''
     after = define if (uses_later and later) else ''
     arg = PROBE_ARG.get(hint, 'UA()')
@@ -133,12 +140,14 @@ def module_source(hint, placement, form):
 def cases(tier, seed):
     out = []
     hints = HINTS if tier != 'quick' else HINTS[:10]
-    lhints = LATER_HINTS if tier != 'quick' else LATER_HINTS[:4]
+    lhints = LATER_HINTS if tier != 'quick' else LATER_HINTS[:4] + LATER_HINTS[9:10]
     for pl in PLACEMENTS:
         for form in FORMS:
             if pl.startswith('class_') and form.startswith('later'):
                 continue
             for h in (lhints if (form.startswith('later') or pl.startswith('class_')) else hints):
+                if pl.startswith('class_') and 'LATERG' in h:
+                    continue
                 if tier == 'quick' and pl in ('nested_method', 'closure_in_method') and hash((h, form)) % 2:
                     continue
                 name = f'{pl}:{form}:{h}'
